@@ -8,8 +8,8 @@ from common import CORPUS
 
 CONFIG = {
     "cone": ["Base/ListUtil.v", "Base/QUtil.v", "Base/FirstArgmax.v", "Model/Store.v", "Proofs/StoreProofs.v", "Model/Archive.v",
-             "Proofs/ArchiveProofs.v", "Proofs/C01Proofs.v", "Proofs/C02Proofs.v", "Model/Proximity.v", "Proofs/ProximityProofs.v",
-             "Properties/C14.v"],
+             "Proofs/ArchiveProofs.v", "Proofs/C01Proofs.v", "Proofs/C02Proofs.v", "Model/Proximity.v", "Proofs/KnnProofs.v", "Proofs/ProximityProofs.v",
+             "Proofs/C14Proofs.v", "Properties/C14.v"],
     "trusted": ["Model/Proximity.v models ProximityArchive over exact rationals on top of Model/Archive.v (ArchiveBase defaults) and "
                 "Model/Store.v (resize); the k-D tree is not modelled: each candidate carries its distances to the stored entries of the "
                 "pre-call archive (1-D: |x-y| computed exactly by the harness; 2-3-D integer/half-integer lattices: numpy's float64 "
